@@ -129,8 +129,11 @@ namespace PL
    inline std::string judge( const R::Res& o, const Real& r, int M, const char* data, int eol_kind )
    {
       auto poscheck = [ & ]( size_t lo, size_t hi ) -> std::string {
+         if( r.byte < g_ib ) return "error position byte below the initial byte counter";
+         lo += g_ib;
+         hi += g_ib;
          if( r.byte < lo || r.byte > hi ) return "error position byte " + std::to_string( r.byte ) + " outside [" + std::to_string( lo ) + "," + std::to_string( hi ) + "]";
-         const R::Pos e = R::pos_of( data, int( r.byte ), eol_kind );
+         const R::Pos e = R::pos_of( data, int( r.byte - g_ib ), eol_kind );
          if( e.line != r.line || e.column != r.column ) return "error position line/column inconsistent with byte";
          const std::string w = "src:" + std::to_string( r.line ) + ":" + std::to_string( r.column ) + ": " + r.msg;
          if( w != r.what ) return "what() is not source:line:column: message";
